@@ -43,7 +43,7 @@ var c19Forms = []c19Form{
 	{Name: "manifest:config", API: "manifest:config", Code: `local m = manifest.get(C.SRC); out("m:config " .. try(function() return tostring(m:config()) end) .. " / " .. tostring(image.config(m)))`},
 	{Name: "manifest:export", API: "manifest:export", Code: `local m = manifest.get(C.SRC); out("m:export " .. tostring(m:export()))`},
 	{Name: "manifest:ratelimit", API: "manifest:ratelimit", Code: `local m = manifest.head(C.SRC); out("m:ratelimit " .. show(m:ratelimit()))`},
-	{Name: "manifest:ratelimitWait", API: "manifest:ratelimitWait", Tier: 1, Code: `local m = manifest.head(C.SRC); out("m:ratelimitWait " .. show(m:ratelimitWait(1, "1ms", "50ms")))`},
+	{Name: "manifest:ratelimitWait", API: "manifest:ratelimitWait", Tier: 1, Code: `local m = manifest.head(C.SRC); out("m:ratelimitWait " .. show(m:ratelimitWait(1, "1ms", "45s")))`},
 	{Name: "blob.get", API: "blob.get", Code: `local b = blob.get(C.SRC, LAYER); out("blob.get " .. type(b))`},
 	{Name: "blob.get/refdigest", API: "blob.get", Tier: 1, Code: `local r = reference.new(C.SRC); r:digest(LAYER); local b = blob.get(r); out("blob.get refdigest " .. type(b))`},
 	{Name: "blob.head", API: "blob.head", Code: `local b = blob.head(C.SRC, LAYER); out("blob.head " .. type(b))`},
@@ -54,7 +54,7 @@ var c19Forms = []c19Form{
 	{Name: "image.manifest", API: "image.manifest", Code: `local m = image.manifest(C.SRC); out("image.manifest " .. tostring(m))`},
 	{Name: "image.manifestHead", API: "image.manifestHead", Tier: 1, Code: `local m = image.manifestHead(C.SRC); out("image.manifestHead " .. try(function() return tostring(m) end))`},
 	{Name: "image.manifestList", API: "image.manifestList", Tier: 1, Code: `local m = image.manifestList(C.SRC); out("image.manifestList " .. tostring(m))`},
-	{Name: "image.ratelimitWait", API: "image.ratelimitWait", Code: `out("image.ratelimitWait " .. show(image.ratelimitWait(C.SRC, 1, "1ms", "50ms")))`},
+	{Name: "image.ratelimitWait", API: "image.ratelimitWait", Code: `out("image.ratelimitWait " .. show(image.ratelimitWait(C.SRC, 1, "1ms", "45s")))`},
 	{Name: "image.exportTar", API: "image.exportTar", Code: `image.exportTar(C.SRC, OUT .. "/export-" .. C.N .. "-" .. C.T .. ".tar"); out("image.exportTar done")`},
 	{Name: "reference.new", API: "reference.new", Code: `local r = reference.new(C.SRC); out("reference.new " .. tostring(r))`},
 	{Name: "reference:tag", API: "reference:tag", Code: `local r = reference.new(C.SRC); local old = r:tag(); r:tag("v2"); out("r:tag " .. old .. " -> " .. r:tag() .. " " .. tostring(r))`},
